@@ -27,7 +27,7 @@ EXPLANATION = ('Pairing / restoration rules on the CFG of Segment::justify (ever
                'showing that every link of a pre-existing slot is restored, the exact write set of gr_slot_linebreak_before, and the '
                'loader rule that keeps list mutators out of justification passes.  Finiteness of the returned width and origins, and '
                'reverseSlots being its own inverse for every diacritic arrangement, are not decided.')
-FLOORS = {'RESTORE': 2, 'REVERSEPAIR': 3, 'LINEENDPAIR': 3, 'UNDO': 2, 'LINEBREAK': 2, 'NOMUTPOS': 4, 'ADVIDX': 2}
+FLOORS = {'RESTORE': 2, 'REVERSEPAIR': 4, 'LINEENDPAIR': 3, 'UNDO': 2, 'LINEBREAK': 2, 'NOMUTPOS': 4, 'ADVIDX': 2}
 
 
 def _assign_blocks(fn, lhs_render, rhs_pred=None):
@@ -563,6 +563,86 @@ def justpool(run, fx):
         run.broken('UNDO', 'justify record pool', 'expected the two record addresses (p, next) of the free-list loop, found %d' % n, fn.where())
 
 
+def posreverse(run, fx):
+    """REVERSEPAIR for Segment::positionSlots (justify positions a line through it, with the caller's direction): when it reverses the
+    stream on entry it reverses it back on exit.  reverseSlots() toggles the segment's current direction, so the decision for the second
+    reversal must be the one taken for the first (a value computed before it), not a fresh evaluation of currdir() / m_dir; and no exit
+    lies between the two."""
+    fn = fx.one('graphite2::Segment::positionSlots')
+    revs = sorted(calls_in(fn, 'graphite2::Segment::reverseSlots'), key=lambda e: (e['ln'], e['col']))
+    inst = 'positionSlots re-reverses on the decision taken at entry'
+    if len(revs) != 2:
+        run.violated('REVERSEPAIR', inst, fn.where(), 'Segment::positionSlots has %d reverseSlots() calls, expected the entry / exit pair' % len(revs))
+        return
+    e1, e2 = revs
+    g1 = dom.edge_guards(fn, fn.block_of[e1['i']])
+    g2 = dom.edge_guards(fn, fn.block_of[e2['i']])
+    key = lambda g: (g[0] if isinstance(g[0], int) else id(g[0]), g[1])
+    # the guard proper of the exit reversal: what it is under that the entry of the function is not
+    own2 = [g for g in g2 if key(g) not in {key(x) for x in dom.edge_guards(fn, fn.block_of[e1['i']]) if False}]
+    txt = lambda g: (fn.render(fn.N(g[0]) if isinstance(g[0], int) else g[0], resolve=False), g[1])
+    t1 = sorted({txt(g) for g in g1})
+    t2 = sorted({txt(g) for g in g2 if txt(g) not in {txt(x) for x in g1} or True})
+    # anything reverseSlots changes that the exit guard reads afresh
+    stale = []
+    for g in g2:
+        node = fn.N(g[0]) if isinstance(g[0], int) else g[0]
+        for x in fn.walk(node):
+            if x['k'] == 'CXXMemberCallExpr' and (x.get('fq') or '') in ('graphite2::Segment::currdir', 'graphite2::Segment::dir'):
+                stale.append(fn.render(x))
+            if x['k'] == 'MemberExpr' and x.get('dk') == 'Field' and x.get('d') in ('graphite2::Segment::m_dir', 'graphite2::Segment::m_first', 'graphite2::Segment::m_last'):
+                stale.append(fn.render(x))
+    c1 = [t for t in t1]
+    c2 = [t for t in sorted({txt(g) for g in g2})]
+    common = [t for t in c2 if t in c1]
+    if stale:
+        run.violated('REVERSEPAIR', inst, fn.loc(e2), 'the exit reversal is decided by evaluating %s again, after the entry reverseSlots() has toggled the direction it reads: the second '
+                     'reversal never runs and the line is left in reversed order with m_first / m_last swapped' % sorted(set(stale)))
+        return
+    own1 = [t for t in c1]
+    own2 = [t for t in c2]
+    slotparams0 = {p_['n'] for p_ in fn.f['params'] if 'Slot *' in (p_.get('t') or '')}
+
+    def nonempty_test(g):
+        node = fn.N(g[0]) if isinstance(g[0], int) else g[0]
+        ats = [dom.norm(fn, a_, p_) for a_, p_ in dom.atoms(fn, node, g[1], inline=False, cond_expand=False)]
+        return bool(ats) and all(f and f[0] in slotparams0 and f[2] == '0' for f in ats)
+    extra2 = [txt(g) for g in g2 if txt(g) not in own1 and not nonempty_test(g)]
+    missing2 = [t for t in own1 if t not in own2]
+    if not own1 or extra2 or missing2:
+        run.violated('REVERSEPAIR', inst, fn.loc(e2), 'the exit reversal is guarded by %s, the entry reversal by %s: the two no longer run on exactly the same calls' % (own2, own1))
+        return
+    # no return between the two on a path that executed the first
+    b1, b2 = fn.block_of[e1['i']], fn.block_of[e2['i']]
+    seen, st, esc = set(), list(fn.succs(b1)), None
+    contra = set()
+    for b_ in fn.blocks:                      # edges on which the entry decision would have been the other way: infeasible after the first reversal
+        c_ = fn.term_cond(b_)
+        if c_ is None or len(fn.blocks[b_]['succ']) != 2:
+            continue
+        for t in own1:
+            if fn.render(fn.N(c_) if isinstance(c_, int) else c_, resolve=False) == t[0]:
+                contra.add((b_, 1 if t[1] else 0))
+    # the line has no slots at all (both ends still null after defaulting them): nothing was reordered, nothing to put back
+    slotparams = {p_['n'] for p_ in fn.f['params'] if 'Slot *' in (p_.get('t') or '')}
+    contra = set(contra) | set(dom.edges_with(fn, lambda f: f[0] in slotparams and f[1] == '==' and f[2] == '0'))
+    while st:
+        b = st.pop()
+        if b in seen or b == b2:
+            continue
+        seen.add(b)
+        if b == fn.exit:
+            esc = b
+            break
+        for idx, s_ in enumerate(fn.blocks[b]['succ']):
+            if s_ is not None and (b, idx) not in contra:
+                st.append(s_)
+    if esc is not None:
+        run.violated('REVERSEPAIR', inst, fn.loc(e1), 'Segment::positionSlots can return after the entry reverseSlots() without reversing the stream back')
+    else:
+        run.held('REVERSEPAIR', inst, fn.loc(e2), 'both reversals under %s (a value fixed before the first), no exit in between' % own1)
+
+
 def nullwalk(run, fx):
     """"every call returns": the line handed to gr_seg_justify need not contain the slots the walk is aimed at (after gr_slot_linebreak_before
     the segment's last slot lies in another chain, and justify defaults pLast to it), so a walk `s = s->prev()` / `s = s->next()` in
@@ -618,6 +698,7 @@ def run(run):
     justpool(run, fx)
     linebreak(run, fx)
     nullwalk(run, fx)
+    posreverse(run, fx)
     c03.nomutpos(run, vm)
     from . import c02
     c02.advidx(run, fx)      # justify positions with the caller's gr_font: the hinted-advance cache index (shared with C02)
